@@ -7,16 +7,16 @@ git -C /repo worktree add -q $WT HEAD || exit 2
 cmake -G Ninja -S $WT -B $WT/_build -DLIBCELLML_COVERAGE=OFF -DLIBCELLML_MEMCHECK=OFF -DLIBCELLML_BINDINGS_PYTHON=OFF -DLIBCELLML_TREAT_WARNINGS_AS_ERRORS=OFF > $WT/cfg.log 2>&1
 suite() { ctest --test-dir $WT/_build -j8 --timeout 900 2>&1 | grep -E "^\s+[0-9]+ - " | sed 's/ (.*//' | sort | tr -d ' ' | tr '\n' ','; }
 for id in "$@"; do
-  S=/verif/seeded/$id; mkdir -p $WT/seeded/x; rm -rf $WT/seeded/x/*; cp $S/* $WT/seeded/x/ 2>/dev/null
+  S=/verif/seeded/$id; mkdir -p $WT/seeded/x; rm -rf $WT/seeded/x/*; cp $S/* $WT/seeded/x/ 2>/dev/null; sed -i "s#/tmp/seed-c[0-9][0-9]#$WT#g" $WT/seeded/x/run.sh $WT/seeded/x/demo.cpp 2>/dev/null
   git -C $WT checkout -q -- src tests 2>/dev/null
   {
     echo "seed $id  (repo HEAD $(git -C /repo rev-parse --short HEAD), $(date -u +%FT%TZ))"
     cmake --build $WT/_build -j8 > $WT/b0.log 2>&1; echo "clean build rc=$?"
-    ( cd $WT/seeded/x && sh ./run.sh $WT/_build ) > $WT/demo0.log 2>&1; echo "demo without change: exit=$? ($(tail -1 $WT/demo0.log | cut -c1-80))"
+    ( cd $WT/seeded/x && sh ./run.sh $WT/_build $WT ) > $WT/demo0.log 2>&1; echo "demo without change: exit=$? ($(tail -1 $WT/demo0.log | cut -c1-80))"
     if git -C $WT apply $S/patch.diff; then echo "patch applies"; else echo "PATCH DOES NOT APPLY"; fi
     cmake --build $WT/_build -j8 > $WT/b1.log 2>&1; echo "build with change rc=$?"
     echo "suite failures with change: $(suite)   (baseline: 12-entities_unit_test_math,14-io_unit_test_parser,)"
-    ( cd $WT/seeded/x && sh ./run.sh $WT/_build ) > $WT/demo1.log 2>&1; echo "demo with change: exit=$? ($(tail -1 $WT/demo1.log | cut -c1-80))"
+    ( cd $WT/seeded/x && sh ./run.sh $WT/_build $WT ) > $WT/demo1.log 2>&1; echo "demo with change: exit=$? ($(tail -1 $WT/demo1.log | cut -c1-80))"
   } > $S/confirm.txt 2>&1
   cat $S/confirm.txt
 done
